@@ -13,13 +13,14 @@ EXPLAINED = {
 
 class C02(Property):
     id = "C02"
-    lean_module = "RosuModel.Props.C02"
+    lean_module = "RosuModel.Props.C02Timing"   # imports Props/C02.lean; both files are in namespace Rosu.C02
     namespace = "Rosu.C02"
     design_ref = "5.2"
     required_theorems = ["trim_cons_space", "kvSplit_kvLine", "kv_line_roundtrip", "int_display_parse", "int_display_clean",
                          "metadata_block_roundtrip", "colours_block_roundtrip", "colours_block_roundtrip_decoded",
                          "editor_block_roundtrip", "difficulty_block_roundtrip", "general_block_roundtrip", "events_block_roundtrip",
-                         "laws_satisfiable", "records_roundtrip", "circle_rt", "spinner_rt", "hold_rt", "samples_bank_info_rt", "samples_rt"]
+                         "laws_satisfiable", "records_roundtrip", "circle_rt", "spinner_rt", "hold_rt", "samples_bank_info_rt", "samples_rt",
+                         "timing_line_rt", "inherited_line_rt", "redundant_group_no_effect", "timing_laws_satisfiable", "timing_block_redecoded"]
     partial_theorems = {
         "editor_block_roundtrip / difficulty_block_roundtrip / general_block_roundtrip / events_block_roundtrip / records_roundtrip":
             "law-dependent: proved for every number codec satisfying CodecLaws (parse(print x) = x on the representable values; printed numbers are non-empty and made of "
@@ -35,8 +36,20 @@ class C02(Property):
             "The samples come back as convert_sound_type of the same hit-sound byte and the rebuilt bank info (samples_bank_info_rt, no law needed); samples_rt shows that this "
             "reproduces names and banks for sample lists in the decoder's own shape (Normal-with-bank or custom file first, then finish/whistle/clap sharing a specified addition bank) — "
             "that every decoded map's lists have this shape is not proved here",
-        "roundtrip": "NOT yet theorems (only `def roundtrip_statement : Prop`): slider lines (path strings, node samples), timing points and the "
-            "effective SV/kiai/scroll timelines (layer 5 of DESIGN 5.2), the assembly over all objects of a map, and therefore the property as a whole. These are evaluated on the implementation by the `rt` oracle "
+        "timing_line_rt / inherited_line_rt / timing_block_redecoded":
+            "law-dependent (CodecLaws), line level resp. file level. timing_line_rt: the 1-line of a stored timing point (sorted collection, beat length inside the clamp [6, 60000]) is "
+            "accepted in any state and applied as a timing change whose TimingPoint IS that point (time, beat length, signature, omit-first-bar-line). inherited_line_rt: a 0-line is applied "
+            "as a non-timing line at the group's time with the slider velocity (scroll speed in taiko/mania) and kiai flag in effect there and the sample fields written — the velocity goes "
+            "through the arithmetic inverse 100/−(−100/v) = v, taken as a hypothesis (exact in exact arithmetic; the documented ≤4 ulp drift for IEEE). timing_block_redecoded: re-decoding "
+            "the encoded file leaves as control points exactly what the decoder's state machine (applyTpLine, C12) builds from the values written — for maps satisfying "
+            "RtTiming.RepTimingMap (see C04; a decoded map can violate it only through collected sample points at non-representable computed times)",
+        "redundant_group_no_effect":
+            "exact arithmetic only (RtTiming.EpsLaws: |a−b| < EPSILON iff a = b; instance: the integer toy scalar ZC with eps = 1): from a group's time up to the next control point the true "
+            "properties equal last_props after that group's iteration, whether its inherited line was written or suppressed. For IEEE doubles the law fails for non-finite values and for "
+            "distinct values closer than 2.2e-16 (possible below 2.0): there a suppressed line can change the effective velocity by less than EPSILON — not modelled",
+        "roundtrip": "NOT yet theorems (only `def roundtrip_statement : Prop`, `def timing_rt_statement : Prop`): slider lines (path strings, node samples); for timing points the last step — "
+            "that the decoder's pending-group / redundancy logic, run over the values written (timing_block_redecoded), rebuilds the same timing points and the same effective SV / kiai / "
+            "scroll-speed timelines (layer 5 of DESIGN 5.2); the assembly over all objects of a map, and therefore the property as a whole. These are evaluated on the implementation by the `rt` oracle "
             "(preserved view compared field by field, floats by bits, curves included, ≤4 ulp only for slider velocity) and on the model by the three-way `rt` correspondence "
             "(M1, text, M2 all identical between model and code)",
     }
@@ -45,11 +58,14 @@ class C02(Property):
                   "line by line and gives the section back on the preserved view: all ten metadata fields incl. positive ids; combo and custom colours with alpha 255; editor; difficulty "
                   "inside the clamps; general with the encoder's SampleSet / CountdownOffset / SpecialStyle / flag rules; background file and breaks), and file level for those sections "
                   "(records_roundtrip: encode, UTF-8 bytes, reader, framing, Beatmap decoder, finalisation), and line level for circles, spinners and hold notes (circle_rt, spinner_rt, "
-                  "hold_rt, samples_bank_info_rt, samples_rt). Everything that prints floats is proved for every lawful number codec. Sliders and timing points are not yet theorems. Model of decoder and encoder compared three ways on every case (decoded map, encoded text character for character, re-decoded map); "
+                  "hold_rt, samples_bank_info_rt, samples_rt), and for timing points: line level (timing_line_rt: a timing point's line comes back as that point; inherited_line_rt: an inherited line "
+                  "comes back as the velocity / kiai / sample fields in effect), the encoder's redundancy suppression loses nothing under exact arithmetic (redundant_group_no_effect), and file level "
+                  "timing_block_redecoded (the re-decoded control points are the decoder's state machine run over exactly the values written). Everything that prints floats is proved for every "
+                  "lawful number codec. Sliders, and the final step of the timing-point round trip (timing_rt_statement), are not yet theorems. Model of decoder and encoder compared three ways on every case (decoded map, encoded text character for character, re-decoded map); "
                   "the property itself — preserved(decode(encode(decode x))) = preserved(decode x) for chronological inputs — is evaluated on the real code over the structured generator "
                   "(all sections, four modes, versions 3..128, all object kinds, multi-segment paths, same-time timing groups, hostile-but-accepted numerics), field-level mutations of the "
                   "bundled maps and the bundled maps themselves.")
-    technique = "Lean 4 proof (line, section and record-file level round trips; law-dependent where floats are printed) + three-way correspondence + implementation-level round-trip oracle"
+    technique = "Lean 4 proof (line, section and record-file level round trips, timing-point lines; law-dependent where floats are printed) + three-way correspondence + implementation-level round-trip oracle"
     trusted_base = [
         "Lean 4.33.0 kernel; axioms ⊆ {propext, Classical.choice, Quot.sound} per #print axioms",
         "hand-written decode + encode models tied to /repo by the `rt` differential of this run",
